@@ -626,6 +626,36 @@ impl Runner {
                         }
                         None => "bad-op".into(),
                     },
+                    ["eqnew"] => {
+                        // J (possibly carrying empty children / a forced leaf) against tries rebuilt by insert from
+                        // its own rows: equal to the full rebuild, strictly above the rebuild without the least row
+                        if !j.set {
+                            return "bad-op".into();
+                        }
+                        let Some(l) = j.t.lat() else { return "bad-op".into() };
+                        let d = j.t.dump();
+                        let sig = if has_empty_child(&d) { "ght-compare-vs-rows@empty-child" } else { "ght-compare-vs-rows" };
+                        let mut rs: Vec<Row> = j.expect.clone();
+                        rs.sort();
+                        rs.dedup();
+                        let full = j.t.new_from(&rs);
+                        let (Some(e1), Some(c1)) = (l.eq_(full.as_ref()), l.cmp_(full.as_ref())) else { return "bad-op".into() };
+                        let Some(fl) = full.lat() else { return "bad-op".into() };
+                        let (Some(e1r), Some(c1r)) = (fl.eq_(j.t.as_ref()), fl.cmp_(j.t.as_ref())) else { return "bad-op".into() };
+                        rec.check(e1 && c1 == "eq" && e1r && c1r == "eq", sig, &format!("J eqnew: J={d} rebuilt={} got {e1} {c1} / reversed {e1r} {c1r}", full.dump()));
+                        let (e1, c1) = (format!("{e1}/{e1r}"), format!("{c1}/{c1r}"));
+                        rec.count(&format!("eqnew:{}", if has_empty_child(&d) { "empty-child" } else { "plain" }));
+                        if rs.is_empty() {
+                            format!("{e1} {c1} -")
+                        } else {
+                            let less = j.t.new_from(&rs[1..]);
+                            let (Some(e2), Some(c2)) = (l.eq_(less.as_ref()), l.cmp_(less.as_ref())) else { return "bad-op".into() };
+                            let Some(c3) = less.lat().and_then(|ll| ll.cmp_(j.t.as_ref())) else { return "bad-op".into() };
+                            let Some(e3) = less.lat().and_then(|ll| ll.eq_(j.t.as_ref())) else { return "bad-op".into() };
+                            rec.check(!e2 && !e3 && c2 == "gt" && c3 == "lt", sig, &format!("J eqnew: J={d} smaller={} got {e2}/{e3} {c2} {c3}", less.dump()));
+                            format!("{e1} {c1} {e2}/{e3} {c2} {c3}")
+                        }
+                    }
                     ["isbot"] | ["eq0"] | ["cmp0"] => {
                         if !j.set {
                             return "bad-op".into();
@@ -785,7 +815,7 @@ fn suffix(k: usize, v: usize, st: &str, rng: &mut Rng, dom: u64) -> Vec<String> 
     let ar = k + v;
     let mut ls: Vec<String> = vec!["A rows".into(), "A dump".into(), "B dump".into(), "A keys".into(), "A tuples".into()];
     if st == "hs" || rng.chance(1, 4) {
-        for l in ["A eq B", "A cmp B", "B cmp A", "A isbot", "J deepjoin", "J rows", "J eq0", "J cmp0", "J isbot", "J cart", "J rows", "J eq0"] {
+        for l in ["A eq B", "A cmp B", "B cmp A", "A isbot", "J deepjoin", "J rows", "J eq0", "J cmp0", "J eqnew", "J isbot", "J cart", "J rows", "J eq0", "J eqnew"] {
             ls.push(l.into());
         }
         ls.push(format!("J contains {}", show_row(&gen_row(rng, 2 * ar, dom))));
@@ -845,7 +875,7 @@ pub fn gen_case(rng: &mut Rng, k: usize, v: usize, st: &str, steps: usize, dom: 
             37 => "J deepjoin".into(),
             38 if k == 0 => format!("{x} forcedrain"),
             38 => "J cart".into(),
-            _ => ["J rows", "J eq0", "J cmp0", "J isbot", "A height", "J dump"][rng.below(6) as usize].to_string(),
+            _ => ["J rows", "J eq0", "J cmp0", "J isbot", "A height", "J dump", "J eqnew", "J eqnew"][rng.below(8) as usize].to_string(),
         };
         ls.push(l);
     }
@@ -892,7 +922,7 @@ pub fn exhaustive_cases(k: usize, v: usize, len: usize) -> Vec<Vec<String>> {
             ls.push(alphabet[code % n].clone());
             code /= n;
         }
-        for l in ["A rows", "A dump", "B dump", "A eq B", "A cmp B", "B cmp A", "A isbot", "J deepjoin", "J rows", "J eq0", "J cmp0", "J isbot", "A prefix 0", "A get 0", "A keys"] {
+        for l in ["A rows", "A dump", "B dump", "A eq B", "A cmp B", "B cmp A", "A isbot", "J deepjoin", "J rows", "J eq0", "J cmp0", "J eqnew", "J isbot", "A prefix 0", "A get 0", "A keys"] {
             ls.push(l.into());
         }
         out.push(ls);
